@@ -631,3 +631,172 @@ Proof.
   - inversion H1; subst. reflexivity.
   - rewrite Hsum. now rewrite Nat.eqb_refl.
 Qed.
+
+(* ================================================================== Part 3: the iterative scheme *)
+(* 2-D arrays over the cells of a fixed mask: [imap2d F m] holds F y x (m[y][x]) at (y, x) *)
+Fixpoint imap_row {X} (F : nat -> nat -> bool -> X) (y : nat) (row : list bool) (x : nat) : list X :=
+  match row with [] => [] | b :: r => F y x b :: imap_row F y r (S x) end.
+Fixpoint imap_from {X} (F : nat -> nat -> bool -> X) (m : mask) (y : nat) : list (list X) :=
+  match m with [] => [] | row :: t => imap_row F y row 0 :: imap_from F t (S y) end.
+Definition imap2d {X} (F : nat -> nat -> bool -> X) (m : mask) : list (list X) := imap_from F m 0.
+
+Fixpoint cells_row (y : nat) (row : list bool) (x : nat) : list (nat * nat * bool) :=
+  match row with [] => [] | b :: r => (y, x, b) :: cells_row y r (S x) end.
+Fixpoint cells_from (m : mask) (y : nat) : list (nat * nat * bool) :=
+  match m with [] => [] | row :: t => cells_row y row 0 ++ cells_from t (S y) end.
+Definition cells (m : mask) := cells_from m 0.
+Definition on_cells {X} (m : mask) (P : nat -> nat -> bool -> X -> Prop) (F : nat -> nat -> bool -> X) : Prop :=
+  forall y x b, In (y, x, b) (cells m) -> P y x b (F y x b).
+
+Lemma imap_row_ext {X} (F G : nat -> nat -> bool -> X) y row : forall x,
+  (forall x' b, In (y, x', b) (cells_row y row x) -> F y x' b = G y x' b) -> imap_row F y row x = imap_row G y row x.
+Proof.
+  induction row as [|b r IH]; intros x H; cbn; auto. f_equal; [apply H; left; reflexivity|].
+  apply IH. intros; apply H; right; assumption.
+Qed.
+Lemma imap_from_ext {X} (F G : nat -> nat -> bool -> X) m : forall y,
+  (forall y' x' b, In (y', x', b) (cells_from m y) -> F y' x' b = G y' x' b) -> imap_from F m y = imap_from G m y.
+Proof.
+  induction m as [|row t IH]; intros y H; cbn; auto. f_equal.
+  - apply imap_row_ext. intros. apply H. cbn. apply in_or_app. left; assumption.
+  - apply IH. intros. apply H. cbn. apply in_or_app. right; assumption.
+Qed.
+Lemma imap2d_ext {X} (F G : nat -> nat -> bool -> X) m :
+  (forall y x b, In (y, x, b) (cells m) -> F y x b = G y x b) -> imap2d F m = imap2d G m.
+Proof. apply imap_from_ext. Qed.
+
+(* unmasked pixels are cells *)
+Lemma unmasked_row_cells y row : forall x p, In p (unmasked_row y row x) -> In (fst p, snd p, false) (cells_row y row x).
+Proof.
+  induction row as [|b r IH]; intros x p H; cbn in *; [contradiction|].
+  destruct b.
+  - right. apply IH. exact H.
+  - destruct H as [E|H]; [left; subst; reflexivity|right; apply IH; exact H].
+Qed.
+Lemma unmasked_from_cells m : forall y p, In p (unmasked_from m y) -> In (fst p, snd p, false) (cells_from m y).
+Proof.
+  induction m as [|row t IH]; intros y p H; cbn in *; [contradiction|].
+  apply in_app_or in H. apply in_or_app. destruct H as [H|H]; [left; now apply unmasked_row_cells|right; now apply IH].
+Qed.
+Lemma unmasked_cells m p : In p (unmasked m) -> In (fst p, snd p, false) (cells m).
+Proof. apply unmasked_from_cells. Qed.
+
+(* composition, zipping, shape *)
+Lemma imap_row_imap {X} (G : nat -> nat -> bool -> X) (T : nat -> nat -> bool -> bool) y row : forall x,
+  imap_row G y (imap_row T y row x) x = imap_row (fun y x b => G y x (T y x b)) y row x.
+Proof. induction row as [|b r IH]; intros x; cbn; auto. now rewrite IH. Qed.
+Lemma imap_from_imap {X} (G : nat -> nat -> bool -> X) (T : nat -> nat -> bool -> bool) m : forall y,
+  imap_from G (imap_from T m y) y = imap_from (fun y x b => G y x (T y x b)) m y.
+Proof. induction m as [|row t IH]; intros y; cbn; auto. now rewrite imap_row_imap, IH. Qed.
+Lemma imap2d_imap2d {X} (G : nat -> nat -> bool -> X) (T : nat -> nat -> bool -> bool) m :
+  imap2d G (imap2d T m) = imap2d (fun y x b => G y x (T y x b)) m.
+Proof. apply imap_from_imap. Qed.
+
+Lemma map2_imap_row {X Y Z} (f : X -> Y -> Z) F G y row : forall x,
+  map2 f (imap_row F y row x) (imap_row G y row x) = imap_row (fun y x b => f (F y x b) (G y x b)) y row x.
+Proof. induction row as [|b r IH]; intros x; cbn; auto. now rewrite IH. Qed.
+Lemma map2d_imap_from {X Y Z} (f : X -> Y -> Z) F G m : forall y,
+  map2 (map2 f) (imap_from F m y) (imap_from G m y) = imap_from (fun y x b => f (F y x b) (G y x b)) m y.
+Proof. induction m as [|row t IH]; intros y; cbn; auto. now rewrite map2_imap_row, IH. Qed.
+Lemma map2d_imap2d {X Y Z} (f : X -> Y -> Z) F G m :
+  map2d f (imap2d F m) (imap2d G m) = imap2d (fun y x b => f (F y x b) (G y x b)) m.
+Proof. apply map2d_imap_from. Qed.
+
+Lemma imap_row_length {X} (F : nat -> nat -> bool -> X) y row : forall x, length (imap_row F y row x) = length row.
+Proof. induction row; intros x; cbn; auto. Qed.
+Lemma imap2d_shape0 (T : nat -> nat -> bool -> bool) m : shape0 (imap2d T m) = shape0 m.
+Proof. unfold shape0, imap2d. generalize 0%nat. induction m; intros y; cbn; auto. Qed.
+Lemma imap2d_shape1 (T : nat -> nat -> bool -> bool) m : shape1 (imap2d T m) = shape1 m.
+Proof. unfold shape1, imap2d. destruct m; cbn; auto. apply imap_row_length. Qed.
+
+(* the mask itself, and constant arrays *)
+Lemma imap2d_id m : imap2d (fun _ _ b => b) m = m.
+Proof.
+  unfold imap2d. generalize 0%nat. induction m as [|row t IH]; intros y; cbn; auto. f_equal; [|apply IH].
+  generalize 0%nat. induction row; intros x; cbn; congruence.
+Qed.
+Lemma map_map_const_imap2d {X} (c : X) (m : mask) : map (fun row => map (fun _ : bool => c) row) m = imap2d (fun _ _ _ => c) m.
+Proof.
+  unfold imap2d. generalize 0%nat. induction m as [|row t IH]; intros y; cbn; auto. f_equal; [|apply IH].
+  generalize 0%nat. induction row; intros x; cbn; congruence.
+Qed.
+
+(* slim -> native of values indexed by the unmasked pixels; native -> slim *)
+Lemma native_row_imap {X} (z : X) (G : nat * nat -> X) y row : forall x rest,
+  native_row z row (map G (unmasked_row y row x) ++ rest)
+  = (imap_row (fun y x (b : bool) => if b then z else G (y, x)) y row x, rest).
+Proof.
+  induction row as [|b r IH]; intros x rest; cbn [native_row unmasked_row imap_row]; auto.
+  destruct b.
+  - rewrite IH. reflexivity.
+  - cbn [map app tl hd]. rewrite IH. reflexivity.
+Qed.
+Lemma to_native_imap_from {X} (z : X) (G : nat * nat -> X) m : forall y,
+  to_native z m (map G (unmasked_from m y)) = imap_from (fun y x (b : bool) => if b then z else G (y, x)) m y.
+Proof.
+  induction m as [|row t IH]; intros y; cbn [to_native unmasked_from imap_from]; auto.
+  rewrite map_app, native_row_imap, IH. reflexivity.
+Qed.
+Lemma to_native_imap2d {X} (z : X) (G : nat * nat -> X) m :
+  to_native z m (map G (unmasked m)) = imap2d (fun y x (b : bool) => if b then z else G (y, x)) m.
+Proof. apply to_native_imap_from. Qed.
+
+Lemma slim_row_imap {X} (F : nat -> nat -> bool -> X) y row : forall x,
+  slim_row row (imap_row F y row x) = map (fun p => F (fst p) (snd p) false) (unmasked_row y row x).
+Proof. induction row as [|b r IH]; intros x; cbn; auto. destruct b; cbn; now rewrite IH. Qed.
+Lemma to_slim_imap_from {X} (F : nat -> nat -> bool -> X) m : forall y,
+  to_slim m (imap_from F m y) = map (fun p => F (fst p) (snd p) false) (unmasked_from m y).
+Proof. induction m as [|row t IH]; intros y; cbn; auto. now rewrite slim_row_imap, IH, map_app. Qed.
+Lemma to_slim_imap2d {X} (F : nat -> nat -> bool -> X) m :
+  to_slim m (imap2d F m) = map (fun p => F (fst p) (snd p) false) (unmasked m).
+Proof. apply to_slim_imap_from. Qed.
+
+(* all-true masks and non-zero arrays *)
+Lemma pixels_row_zero (T : nat -> nat -> bool -> bool) y row : forall x n,
+  fold_left (fun k (b : bool) => if b then k else S k) (imap_row T y row x) n = 0%nat ->
+  n = 0%nat /\ forall x' b, In (y, x', b) (cells_row y row x) -> T y x' b = true.
+Proof.
+  induction row as [|b r IH]; intros x n H; cbn in *; [split; [assumption|contradiction]|].
+  apply IH in H. destruct H as [Hn Hall]. destruct (T y x b) eqn:E; [|discriminate].
+  split; [assumption|]. intros x' b' [Eq|Hin]; [inversion Eq; subst; assumption|apply Hall; assumption].
+Qed.
+Lemma pixels_from_zero (T : nat -> nat -> bool -> bool) m : forall y n,
+  fold_left (fun n row => fold_left (fun k (b : bool) => if b then k else S k) row n) (imap_from T m y) n = 0%nat ->
+  n = 0%nat /\ forall y' x' b, In (y', x', b) (cells_from m y) -> T y' x' b = true.
+Proof.
+  induction m as [|row t IH]; intros y n H; cbn in *; [split; [assumption|contradiction]|].
+  apply IH in H. destruct H as [Hn Hall]. apply pixels_row_zero in Hn. destruct Hn as [Hn Hrow].
+  split; [assumption|]. intros y' x' b Hin. apply in_app_or in Hin. destruct Hin as [Hin|Hin].
+  - assert (y' = y). { clear -Hin. revert Hin. generalize 0%nat. induction row; intros x H; cbn in H; [contradiction|].
+      destruct H as [E|H]; [now inversion E|eapply IHrow; eassumption]. }
+    subst. apply Hrow. assumption.
+  - apply Hall. assumption.
+Qed.
+Lemma is_all_true_imap2d (T : nat -> nat -> bool -> bool) m :
+  is_all_true (imap2d T m) = true -> forall y x b, In (y, x, b) (cells m) -> T y x b = true.
+Proof.
+  unfold is_all_true, pixels_in_mask, imap2d. intros H. apply Nat.eqb_eq in H. apply pixels_from_zero in H. apply H.
+Qed.
+
+Lemma existsb_imap_row (F : nat -> nat -> bool -> R) (p : R -> bool) y row : forall x x' b,
+  In (y, x', b) (cells_row y row x) -> p (F y x' b) = true -> existsb p (imap_row F y row x) = true.
+Proof.
+  induction row as [|b0 r IH]; intros x x' b Hin Hp; cbn in *; [contradiction|].
+  destruct Hin as [E|Hin]; [inversion E; subst; rewrite Hp; reflexivity|].
+  rewrite (IH _ _ _ Hin Hp). apply orb_true_r.
+Qed.
+Lemma cells_row_y y row : forall x y' x' b, In (y', x', b) (cells_row y row x) -> y' = y.
+Proof. induction row; intros x y' x' b H; cbn in H; [contradiction|]. destruct H as [E|H]; [now inversion E|eapply IHrow; eassumption]. Qed.
+Lemma any_nonzero_imap_from (F : nat -> nat -> bool -> R) m : forall y y' x' b,
+  In (y', x', b) (cells_from m y) -> F y' x' b <> 0 -> existsb (existsb (fun v => negb (Reqb v 0))) (imap_from F m y) = true.
+Proof.
+  induction m as [|row t IH]; intros y y' x' b Hin Hne; cbn in *; [contradiction|].
+  apply in_app_or in Hin. destruct Hin as [Hin|Hin].
+  - pose proof (cells_row_y _ _ _ _ _ _ Hin); subst.
+    rewrite (existsb_imap_row F _ y row 0 x' b Hin); [reflexivity|].
+    destruct (Reqb (F y x' b) 0) eqn:E; [apply Reqb_true in E; contradiction|reflexivity].
+  - rewrite (IH _ _ _ _ Hin Hne). apply orb_true_r.
+Qed.
+Lemma any_nonzero_imap2d (F : nat -> nat -> bool -> R) m y x b :
+  In (y, x, b) (cells m) -> F y x b <> 0 -> @any_nonzero ROps (imap2d F m) = true.
+Proof. intros. unfold any_nonzero. eapply (any_nonzero_imap_from F m 0); eassumption. Qed.
